@@ -275,15 +275,20 @@ def check(ctx):
     for attr, what in (("_facade", "facade"), ("_spa", "spa")):
         dn = [n for n, c in gr.nodes_calling("disconnect") if receiver(c) == f"self.{attr}"]
         ok = bool(dn)
+        extra = []
         for n in dn:
             facts = gr.guard_atoms(n)
             ok = ok and (f"self.{attr} is None", False) in facts
+            # ... and nothing else: any further condition (is_connected, a state test) leaves a path on which the object
+            # exists, is not disconnected, and is then dropped with its endpoint open and its tasks running
+            extra += sorted(t for t, p in facts if t != f"self.{attr} is None")
+        ok = ok and not extra
         # called whenever the object exists: the only guard is the None test
         for n in dn:
             gs = gr.guards(n)
             ok = ok and len(gs) == 1
         ctx.ob("R5", f"GeckoAsyncSpaMan.async_reset::disconnects-{what}", ok,
-               f"async_reset does not disconnect the {what} whenever one exists", reset.loc)
+               f"async_reset does not disconnect the {what} whenever one exists" + (f" (also requires {extra})" if extra else ""), reset.loc)
 
     reset_survives_self_cancel(ctx, repo, "R7")
 
@@ -310,6 +315,7 @@ def check(ctx):
                    f"{fi.qual}: parameter `{p_.arg}` defaults to `{ast.unparse(d_)}`, evaluated once when the function is defined, and is kept in an instance attribute: every {fi.cls.short} built without it shares that one object "
                    f"(for a connection object: the abandoned connection's queued datagrams are consumed by the next connection's handlers)", loc(fi, d_))
     ctx.floor("R8", "constructors inspected", n_init, 40)
+    shared_class_state(ctx, repo, "R8")
 
     # ---- R6 bounded growth --------------------------------------------------
     check_registry(ctx, repo, "R6", only=("tidy",))
@@ -321,6 +327,46 @@ def check(ctx):
         ctx.ob("R6", f"GeckoAsyncSpaMan.async_reset::drops-{attr}", bool(ns), f"async_reset keeps self.{attr}", reset.loc)
     ctx.assume("`except Exception` does not catch asyncio.CancelledError (Python >= 3.8)")
     ctx.assume("task.cancel() delivers one CancelledError at the current await; a later await in a finally block runs to completion")
+
+
+_MUTATORS = ("append", "add", "update", "extend", "pop", "clear", "setdefault", "remove", "insert", "popitem", "discard")
+
+
+def shared_class_state(ctx, repo, rule, only_under=None):
+    """a class-level attribute bound to a mutable object (`cache = {}` in the class body) that a method mutates through
+    `self` without the instance ever getting an object of its own is ONE object for every instance: what one
+    connection / facade / device stores there is seen by the next"""
+    n_cls = 0
+    for m in repo.all_mods():
+        if "/driver/packs/" in m.rel or (only_under and only_under not in m.rel):
+            continue
+        for c in m.classes.values():
+            n_cls += 1
+            for nm, ex in c.consts.items():
+                mutable = isinstance(ex, (ast.Dict, ast.List, ast.Set, ast.ListComp, ast.DictComp, ast.SetComp)) or \
+                    (isinstance(ex, ast.Call) and ast.unparse(ex.func) in ("dict", "list", "set", "collections.defaultdict", "defaultdict", "collections.OrderedDict", "OrderedDict"))
+                if not mutable:
+                    continue
+                writes, rebound = [], False
+                for f in list(c.methods.values()) + list(c.setters.values()):
+                    for n in ast.walk(f.node):
+                        if isinstance(n, (ast.Assign, ast.AugAssign, ast.AnnAssign, ast.Delete)):
+                            tg = n.targets if isinstance(n, (ast.Assign, ast.Delete)) else [n.target]
+                            for t in tg:
+                                if isinstance(t, ast.Attribute) and t.attr == nm and ast.unparse(t.value) == "self" and not isinstance(n, ast.Delete):
+                                    rebound = True
+                                if isinstance(t, ast.Subscript) and ast.unparse(t.value) in (f"self.{nm}", f"cls.{nm}", f"{c.short}.{nm}", f"type(self).{nm}"):
+                                    writes.append((f, n))
+                        if isinstance(n, ast.Call) and isinstance(n.func, ast.Attribute) and n.func.attr in _MUTATORS \
+                                and ast.unparse(n.func.value) in (f"self.{nm}", f"cls.{nm}", f"{c.short}.{nm}", f"type(self).{nm}"):
+                            writes.append((f, n))
+                if writes and not rebound:
+                    f, n = writes[0]
+                    ctx.ob(rule, f"{c.name}::{nm}::class-level-state-not-mutated", False,
+                           f"{c.name}.{nm} is bound once, in the class body, to the mutable `{ast.unparse(ex)}` and {f.qual} mutates it through the instance (L{n.lineno}): "
+                           f"every {c.short} in the process shares that one object, so what one connection / facade / device stores there is what the next one reads", loc(f, n))
+    ctx.ob(rule, "class-level-mutable-state", True, "")
+    ctx.floor(rule, "classes inspected for shared class-level state", n_cls, 40 if not only_under else 5)
 
 
 def reset_survives_self_cancel(ctx, repo, rule):
